@@ -345,5 +345,21 @@ Definition debug_ok (d : decl) : bool :=
   negb (d_debug d)
   || forallb (fun f => f_get f && match f_count f with None => true | Some _ => false end) (d_fields d).
 
+(** a declared default must be a value of the base type (for an arbitrary-int base [uN::new(default)] is evaluated
+    at compile time and fails otherwise; for a native base the literal is out of range for its type) *)
+Definition default_ok (d : decl) : bool :=
+  match d_default d with
+  | Some (DLit n) | Some (DConst _ n) => n <? 2 ^ d_W d
+  | None => true
+  end.
+
 Definition valid_decl (d : decl) : bool :=
-  base_ok (d_W d) && forallb (valid_field (d_W d)) (d_fields d) && debug_ok d.
+  base_ok (d_W d) && forallb (valid_field (d_W d)) (d_fields d) && debug_ok d && default_ok d.
+
+Lemma valid_decl_parts d :
+  valid_decl d = true ->
+  base_ok (d_W d) = true /\ forallb (valid_field (d_W d)) (d_fields d) = true /\ debug_ok d = true /\ default_ok d = true.
+Proof.
+  unfold valid_decl. intros H. apply andb_prop in H. destruct H as [H H4]. apply andb_prop in H. destruct H as [H H3].
+  apply andb_prop in H. destruct H as [H1 H2]. auto.
+Qed.
